@@ -100,6 +100,12 @@ type Event struct {
 	Esk    OptKey  `json:"esk"`
 	Del    bool    `json:"del"`
 	Mode   string  `json:"mode"`
+	MKind  string  `json:"mkind"`
+	Text   []int   `json:"text"`
+	ID     string  `json:"id"`
+	Verdict bool   `json:"verdict"`
+	Attr   string  `json:"attr"`
+	Val    *Value  `json:"val"`
 	WReqs  []WriteReq `json:"-"`
 	GReqs  []GetReq   `json:"-"`
 	Reqs   json.RawMessage `json:"reqs"`
@@ -225,6 +231,7 @@ type Resp struct {
 	Unproc     []WriteReq   `json:"unproc"`
 	Responses  []TableItems `json:"responses"`
 	UnprocKeys []TableKeys  `json:"unprockeys"`
+	Fired []string `json:"fired"`
 	// Walk
 	Full    *Resp   `json:"full,omitempty"`
 	Pages   []*Resp `json:"pages,omitempty"`
@@ -236,6 +243,9 @@ type Resp struct {
 // MarshalJSON writes only the fields the judge reads for this kind of response.
 func (r *Resp) MarshalJSON() ([]byte, error) {
 	m := map[string]interface{}{"err": r.Err}
+	if r.Fired != nil {
+		m["fired"] = r.Fired
+	}
 	switch r.shape {
 	case "get":
 		m["item"] = r.Item
